@@ -11,6 +11,7 @@ import (
 	"regexp"
 	"sort"
 	"strings"
+	"sync/atomic"
 	"unicode"
 	"unicode/utf8"
 
@@ -880,6 +881,13 @@ func CombinatorProgs() []Prog {
 			})
 			return rapid.Custom(func(t *rapid.T) int { return inner.Draw(t, "inner") })
 		}, evenOnly),
+		// drawing never runs methods of values the user supplied (Just, SampledFrom, OneOf of them): a value
+		// whose String method must not be called (it is expensive, it takes a lock, the value refers to itself)
+		one("Just(value with a forbidden String method)", "comb", func() *rapid.Generator[noString] { return rapid.Just(noString{7}) }, func(v noString) string { return noStringCheck(v.n == 7) }),
+		one("SampledFrom(one value with a forbidden String method)", "comb", func() *rapid.Generator[noString] { return rapid.SampledFrom([]noString{{3}}) }, func(v noString) string { return noStringCheck(v.n == 3) }),
+		one("OneOf(Just(forbidden String), Just(forbidden String))", "comb", func() *rapid.Generator[noString] {
+			return rapid.OneOf(rapid.Just(noString{1}), rapid.Just(noString{2}))
+		}, func(v noString) string { return noStringCheck(v.n == 1 || v.n == 2) }),
 		// Make for maps whose key type has very few values: once they are used up every further entry is a
 		// duplicate, which must end in a forced stop (a smaller valid map), never in an endless search for a new key
 		one("Make[map[bool]int8]", "comb rej", rapid.Make[map[bool]int8], func(m map[bool]int8) string { return lenIn(len(m), 0, 2) }),
@@ -1057,4 +1065,24 @@ func FailingProgs() []Prog {
 			return rapid.Custom(func(t *rapid.T) int { return inner.Filter(func(v int) bool { return v != 1 }).Draw(t, "inner") })
 		}, nil),
 	}
+}
+
+// noString: a value whose String method must not be called by the library while it draws.
+type noString struct{ n int }
+
+var noStringCalls int64
+
+func (noString) String() string {
+	atomic.AddInt64(&noStringCalls, 1)
+	return "noString"
+}
+
+func noStringCheck(ok bool) string {
+	if n := atomic.SwapInt64(&noStringCalls, 0); n > 0 {
+		return fmt.Sprintf("the String method of the user-supplied value was called %d time(s) while constructing and drawing", n)
+	}
+	if !ok {
+		return "another value"
+	}
+	return ""
 }
